@@ -4879,3 +4879,127 @@ func runLengthOfUnknownTuple(rr *RuleRun) {
 		rr.Info("cty.Value.Length/range", fd.Pos(), "Length does not consult the refined length range")
 	}
 }
+
+// ---------------------------------------------------------------------------
+// C08.placeholder-resolved-in-result
+
+func init() {
+	register(&Rule{
+		ID: "C08.placeholder-resolved-in-result", Prop: "C08", Also: []string{"C06"}, Floor: 4, Controls: 0,
+		Doc: "in the collection conversion builders (functions of package convert with a target element type parameter), an unknown or empty collection result typed from that parameter (UnknownVal(List/Set/Map(ety…)), ListValEmpty / SetValEmpty / MapValEmpty(ety…)) is built only on paths where the parameter was compared with the dynamic placeholder and found different: when the requested element type is 'any' the result takes the element type of the input, which has already resolved the placeholder",
+		Run: runPlaceholderResolvedInResult,
+	})
+}
+
+func runPlaceholderResolvedInResult(rr *RuleRun) {
+	c := rr.Ctx
+	pkg := "cty/convert"
+	info := c.Info(pkg)
+	for _, fd := range c.SortedDecls(pkg) {
+		fn, _ := info.Defs[fd.Name].(*types.Func)
+		if fn == nil {
+			continue
+		}
+		sig := fn.Type().(*types.Signature)
+		if sig.Results().Len() != 1 || !isConversionNamed(sig.Results().At(0).Type()) {
+			continue
+		}
+		// the element-type parameter: a cty.Type parameter of a builder that also takes a conversion
+		var ety types.Object
+		hasConv := false
+		for i := 0; i < sig.Params().Len(); i++ {
+			id := paramIdent(fd, i)
+			if id == nil {
+				continue
+			}
+			if isCtyType(sig.Params().At(i).Type()) {
+				ety = info.Defs[id]
+			}
+			if isConversionNamed(sig.Params().At(i).Type()) {
+				hasConv = true
+			}
+		}
+		if ety == nil || !hasConv {
+			continue
+		}
+		ast.Inspect(fd.Body, func(n ast.Node) bool {
+			fl, ok := n.(*ast.FuncLit)
+			if !ok {
+				return true
+			}
+			cf := c.CondFacts(fl.Body, info, nil)
+			inspectNoLit(fl.Body, func(m ast.Node) bool {
+				call, ok := m.(*ast.CallExpr)
+				if !ok || len(call.Args) != 1 {
+					return true
+				}
+				var tyArg ast.Expr
+				switch {
+				case isCall(info, call, "cty.ListValEmpty", "cty.SetValEmpty", "cty.MapValEmpty"):
+					tyArg = call.Args[0]
+				case isCall(info, call, "cty.UnknownVal", "cty.NullVal"):
+					if tc, ok := ast.Unparen(call.Args[0]).(*ast.CallExpr); ok && isCall(info, tc, "cty.List", "cty.Set", "cty.Map") && len(tc.Args) == 1 {
+						tyArg = tc.Args[0]
+					}
+				}
+				if tyArg == nil || !mentionsObj(info, tyArg, ety) {
+					return true
+				}
+				key := fmt.Sprintf("%s.%s/%s", pkg, declName(fd), trunc(exprStr(call), 50))
+				resolved := cf.HoldsAt(call, func(cond ast.Expr, truth bool) bool {
+					return !truth && eqCond(cond, func(e ast.Expr) bool { return objOf(info, e) == ety }, func(e ast.Expr) bool { return isPkgVar(info, e, "cty", "DynamicPseudoType") })
+				})
+				if resolved {
+					rr.OK(key, call.Pos(), "built from the requested element type only where that is not the dynamic placeholder")
+				} else {
+					rr.Violation(key, call.Pos(), fmt.Sprintf("the result is typed from the requested element type %s on a path that has not excluded the dynamic placeholder: for a target of 'any' the result must take the element type of the input, otherwise it still carries a placeholder the input had already resolved", ety.Name()))
+				}
+				return true
+			})
+			return false
+		})
+	}
+}
+
+// ---------------------------------------------------------------------------
+// C17.constructed-error-used
+
+func init() {
+	register(&Rule{
+		ID: "C17.constructed-error-used", Prop: "C17", Also: []string{"C16", "C15", "C08", "C11", "C18"}, Floor: 100, Controls: 1,
+		Doc: "an error value that is constructed (path.NewErrorf / NewError, fmt.Errorf, errors.New, function.NewArgError…) is used — returned, assigned, passed on or panicked with: a constructor call standing alone as a statement builds the error and throws it away, so the failure it describes is silently ignored and the function carries on with a zero value",
+		Run: runConstructedErrorUsed,
+	})
+}
+
+func runConstructedErrorUsed(rr *RuleRun) {
+	c := rr.Ctx
+	isCtor := func(info *types.Info, call *ast.CallExpr) bool {
+		f := callee(info, call)
+		if f == nil {
+			return false
+		}
+		sig := f.Type().(*types.Signature)
+		if sig.Results().Len() != 1 || !isErrorType(sig.Results().At(0).Type()) {
+			return false
+		}
+		n := f.Name()
+		return strings.HasPrefix(n, "NewError") || strings.HasPrefix(n, "NewArgError") || n == "Errorf" || (n == "New" && f.Pkg() != nil && f.Pkg().Path() == "errors")
+	}
+	eachFuncBody(c, allPkgs, func(pkg string, fd *ast.FuncDecl, body *ast.BlockStmt) {
+		info := c.Info(pkg)
+		inspectNoLit(body, func(n ast.Node) bool {
+			call, ok := n.(*ast.CallExpr)
+			if !ok || !isCtor(info, call) {
+				return true
+			}
+			key := fmt.Sprintf("%s.%s/%s", pkg, declName(fd), trunc(exprStr(call), 50))
+			if _, alone := c.Parent(call).(*ast.ExprStmt); alone {
+				rr.Violation(key, call.Pos(), "this error is constructed and discarded (the call stands alone as a statement): the failure it describes is not reported, and the function continues with whatever zero value the failed step left behind")
+			} else {
+				rr.OKTrivial(key, call.Pos(), "the constructed error is used")
+			}
+			return true
+		})
+	})
+}
